@@ -99,6 +99,10 @@ def one_model(job):
             last = lines[-1] if lines else ""
             if "Unable to generate name for" in last:
                 last = last.split(" for ")[0]  # mechanism, not the particular names
+            import re as _re
+
+            last = _re.sub(r"[0-9a-f]{8}-[0-9a-f]{4}-[0-9a-f]{4}-[0-9a-f]{4}-[0-9a-f]{12}", "<uuid>", last)
+            last = _re.sub(r"\w*Verif\d+\w*", "<new name>", last)
             fail("plugin fails on a schema-valid evolution|%s|%s" % (plugin, last[:90]), {"rc": r.rc, "tail": r.out[-600:]})
         else:
             res["plugins_ok"] += 1
